@@ -150,7 +150,9 @@ func c02Devs() []c02Dev {
 
 	// Prefix stanza.
 	setT("p-prefix", "prefix", "prefix", "", "::/64", "::/0", "::/48", "::/63", "::/128", "2001:db8::/48", "2001:db8::/128",
-		"2001:db8::1/64", "10.0.0.0/8", "::ffff:10.0.0.0/104", "2001:db8::", "garbage", "fe80::/64", "fd00::/8")
+		"2001:db8::1/64", "10.0.0.0/8", "::ffff:10.0.0.0/104", "2001:db8::", "garbage", "fe80::/64", "fd00::/8",
+		// the unspecified IPv4 address, IPv4-mapped networks, other spellings of the wildcard
+		"0.0.0.0/0", "0.0.0.0/32", "::ffff:0:0/96", "::ffff:192.0.2.0/120", "0::/64", "::0/64", "0:0:0:0:0:0:0:0/64", "0::/0")
 	setT("p-valid", "prefix", "valid_lifetime", c02Life...)
 	setT("p-pref", "prefix", "preferred_lifetime", c02Life...)
 	setT("p-pref", "prefix", "preferred_lifetime", "24h0m0.000000001s", "24h0m1s", "4h0m0.000000001s")
@@ -168,7 +170,8 @@ func c02Devs() []c02Dev {
 
 	// Route stanza.
 	setT("r-prefix", "route", "prefix", "", "::/0", "::/64", "::/1", "2001:db8:ffff::/64", "2001:db8:ffff::1/128", "2001:db8:ffff::1/48",
-		"10.0.0.0/8", "::ffff:10.0.0.0/104", "garbage")
+		"10.0.0.0/8", "::ffff:10.0.0.0/104", "garbage",
+		"0.0.0.0/0", "0.0.0.0/32", "::ffff:0:0/96", "::ffff:192.0.2.0/120", "0::/0", "::0/0", "0:0:0:0:0:0:0:0/0", "0:0::/0", "0::/64")
 	setT("r-life", "route", "lifetime", c02Life...)
 	setT("r-pref", "route", "preference", "", "low", "medium", "high", "HIGH", "x")
 	setT("r-dep", "route", "deprecated", true)
